@@ -20,6 +20,7 @@ import (
 	"sort"
 	"strings"
 	"sync"
+	"time"
 
 	"github.com/benbjohnson/litestream"
 	"github.com/benbjohnson/litestream/file"
@@ -178,7 +179,7 @@ func (c *faultyClient) OpenLTXFile(ctx context.Context, level int, minTXID, maxT
 // ---- case ----
 
 type Step struct {
-	Op      string      `json:"op"` // commit | rsync | once | syncn | saw | compact | restart | l0lost | dataloss | reset | opensync
+	Op      string      `json:"op"` // commit | rsync | once | syncn | saw | compact | dbcompact | l0retain | restart | l0lost | dataloss | reset | opensync
 	Faults  string      `json:"faults,omitempty"`
 	Max     int         `json:"max,omitempty"`
 	Partial int         `json:"partial,omitempty"`
@@ -190,6 +191,9 @@ type Step struct {
 type Case struct {
 	Seed  uint64 `json:"seed"`
 	Steps []Step `json:"steps"`
+	// L0RetentionMS > 0: the DB runs with this (short) level-0 retention, so that the dbcompact / l0retain
+	// steps really delete compacted level-0 files on the replica and their local copies
+	L0RetentionMS int `json:"l0_retention_ms,omitempty"`
 }
 
 type env struct {
@@ -205,6 +209,7 @@ type env struct {
 	dbPath      string
 	initPending bool   // a new DB object was opened; DB.init (behind-replica check) runs on its first Sync
 	lastRestore string // dump of the last successful restoreCheck
+	l0ret       time.Duration
 }
 
 func dumpDB(d *sql.DB) (string, error) {
@@ -227,8 +232,8 @@ func dumpDB(d *sql.DB) (string, error) {
 	return fmt.Sprintf("%d:%s", n, hex.EncodeToString(h.Sum(nil)[:8])), rows.Err()
 }
 
-func newEnv(root string, seed uint64) (*env, error) {
-	e := &env{root: root, dumps: map[ltx.TXID]string{}, r: hx.NewRand(seed), next: 1}
+func newEnv(root string, seed uint64, l0ret time.Duration) (*env, error) {
+	e := &env{root: root, dumps: map[ltx.TXID]string{}, r: hx.NewRand(seed), next: 1, l0ret: l0ret}
 	e.dbPath = filepath.Join(root, "db")
 	if err := e.openApp(true); err != nil {
 		return nil, err
@@ -269,6 +274,9 @@ func (e *env) openDB() error {
 	db.ShutdownSyncTimeout = 0
 	db.Replica = litestream.NewReplicaWithClient(db, e.fc)
 	db.Replica.MonitorEnabled = false
+	if e.l0ret > 0 {
+		db.L0Retention = e.l0ret
+	}
 	if err := db.Open(); err != nil {
 		return err
 	}
@@ -589,7 +597,7 @@ func runCase(drv *hx.Driver, c Case, scratch string, res *counter) (viol string,
 		hx.Fatal(err)
 	}
 	defer os.RemoveAll(root)
-	e, err := newEnv(root, c.Seed)
+	e, err := newEnv(root, c.Seed, time.Duration(c.L0RetentionMS)*time.Millisecond)
 	if err != nil {
 		hx.Fatal(err)
 	}
@@ -613,6 +621,35 @@ func runCase(drv *hx.Driver, c Case, scratch string, res *counter) (viol string,
 				hx.Fatal(fmt.Errorf("%s: %w", st.Op, err))
 			}
 			res.Count("restart/" + st.Op + "->" + map[string]string{"": "plain", "l0": "l0-lost", "all": "recovered-from-replica"}[done])
+		case "dbcompact", "l0retain":
+			// the DB's own maintenance, possibly while an upload fault has left the replica behind:
+			// dbcompact = db.Compact(ctx, 1) (compaction from local files + level-0 retention),
+			// l0retain = db.EnforceL0RetentionByTime(ctx) alone (what the store's retention monitor calls)
+			if err := e.ensureInit(); err != nil {
+				hx.Fatal(err)
+			}
+			time.Sleep(e.l0ret + 2*time.Millisecond) // let every existing file grow older than the retention
+			e.fc.arm(st.Faults, st.Partial, nil)
+			var merr error
+			if st.Op == "dbcompact" {
+				_, merr = e.db.Compact(ctx, 1)
+				if errors.Is(merr, litestream.ErrNoCompaction) {
+					merr = nil
+				}
+			} else {
+				merr = e.db.EnforceL0RetentionByTime(ctx)
+			}
+			e.fc.arm("", 0, nil)
+			l0, _ := e.remoteL0()
+			dp, _ := e.db.Pos()
+			lag := 0
+			if len(l0) == 0 || l0[len(l0)-1] < int(dp.TXID) {
+				lag = 1
+			}
+			res.Count(fmt.Sprintf("%s(replica-behind=%d)->err=%v remoteL0=%d", st.Op, lag, merr != nil, min(len(l0), 3)))
+			if msg := e.namesMatchHeaders(); msg != "" && oracle == "" {
+				oracle = "after " + st.Op + ": " + msg
+			}
 		case "reset":
 			// run-time reset of the local state on the live DB object (what replica auto-recovery calls):
 			// the next DB.Sync must re-establish the baseline from the replica (checkDatabaseBehindReplica)
@@ -955,6 +992,33 @@ func genRemoteCompactCase(r *hx.Rand) Case {
 	return c
 }
 
+// genRetentionCase: directed — short level-0 retention; replicate and compact so that every remote L0 file
+// is in L1; then an upload fails (the replica lags behind the local newest file) and the DB's level-0
+// retention / compaction runs in that state; then faults stop.
+func genRetentionCase(r *hx.Rand) Case {
+	c := Case{Seed: r.Uint64(), L0RetentionMS: 1}
+	for i, n := 0, 2+r.Intn(3); i < n; i++ {
+		c.Steps = append(c.Steps, Step{Op: "commit", N: 1 + r.Intn(2)}, Step{Op: "rsync"})
+	}
+	c.Steps = append(c.Steps, Step{Op: "dbcompact"})
+	for round, n := 0, 1+r.Intn(2); round < n; round++ {
+		if r.Chance(50) {
+			c.Steps = append(c.Steps, Step{Op: "commit", N: 1}, Step{Op: "rsync"}, Step{Op: "dbcompact"})
+		}
+		// the outage: one or two transactions whose upload fails (before or after taking effect)
+		for k, m := 0, 1+r.Intn(2); k < m; k++ {
+			c.Steps = append(c.Steps, Step{Op: "commit", N: 1 + r.Intn(2)},
+				Step{Op: []string{"rsync", "saw"}[r.Intn(2)], Faults: []string{"b", "bb", "ob", "a", "oa"}[r.Intn(5)], Partial: r.Intn(300)})
+		}
+		c.Steps = append(c.Steps, Step{Op: []string{"l0retain", "l0retain", "dbcompact"}[r.Intn(3)], Faults: genFaults(r, r.Intn(2))})
+		if r.Chance(50) {
+			c.Steps = append(c.Steps, Step{Op: "commit", N: 1}, Step{Op: "saw", Faults: genFaults(r, r.Intn(3))})
+		}
+	}
+	c.Steps = append(c.Steps, Step{Op: "commit", N: 1}, Step{Op: "saw"})
+	return c
+}
+
 var initFaults = []string{"b", "b", "a", "ob", "oa", "", "bb", "bob"}
 
 // genRecoveryCase: directed — replicate, then restart / lose the local level-0 directory / lose the
@@ -993,11 +1057,19 @@ func genCase(r *hx.Rand) Case {
 	if r.Chance(25) {
 		return genRemoteCompactCase(r)
 	}
+	if r.Chance(30) {
+		return genRetentionCase(r)
+	}
 	c := Case{Seed: r.Uint64()}
+	if r.Chance(30) {
+		c.L0RetentionMS = 1
+	}
 	n := 6 + r.Intn(10)
 	c.Steps = append(c.Steps, Step{Op: "commit", N: 1 + r.Intn(3)})
 	for i := 0; i < n; i++ {
-		switch r.Intn(14) {
+		switch r.Intn(15) {
+		case 14:
+			c.Steps = append(c.Steps, Step{Op: []string{"dbcompact", "l0retain"}[r.Intn(2)], Faults: genFaults(r, r.Intn(3))})
 		case 12:
 			c.Steps = append(c.Steps, Step{Op: []string{"restart", "l0lost", "dataloss", "reset"}[r.Intn(4)], Faults: genFaults(r, r.Intn(4))})
 			if r.Chance(60) {
